@@ -348,3 +348,6 @@ def run(facts, rep, tier):
     rule_r4(facts, rep)
     rule_r5(facts, rep)
     rule_r6(facts, rep)
+    rep.rule("C14-R7", "= C15-R3: Key::parent (the directory relative links and new notes are resolved against) uses the path algebra of the url reader / writer.")
+    from . import c15 as _c15
+    _c15.rule_r3(facts, rep, "C14-R7")
